@@ -15,12 +15,12 @@ TraceInit == Init /\ TBInit
 TReset == /\ Ev.k = "reset"
           /\ ResetTo(WV(Ev.x.origin))
 
-OpName(x) == IF x = "alloc" THEN "deq" ELSE IF x \in {"dealloc_id", "dealloc_ref", "dealloc_last"} THEN "enq" ELSE x
+OpName(x) == IF x \in {"alloc", "alloc_with"} THEN "deq" ELSE IF x \in {"dealloc_id", "dealloc_ref", "dealloc_last"} THEN "enq" ELSE x
 
-TCall == /\ Ev.k = "call"
+TCall == /\ Ev.k = "call" /\ ~IsNopCall
          /\ Call(P, [op |-> OpName(Ev.x.op), v |-> Ev.x.v, i |-> Ev.x.i + 1])
 
-TRet == /\ Ev.k = "ret"
+TRet == /\ Ev.k = "ret" /\ ~IsNopRet
         /\ pc[P] = "ret"
         /\ reg[P].res.ok = Ev.x.ok
         /\ (reg[P].op.op \in {"enq", "deq", "len", "reserve", "pub_idx"} /\ Ev.x.ok /\ Ev.fn \notin {"dealloc_id", "dealloc_ref", "dealloc_last"})
@@ -68,8 +68,8 @@ TraceNext == /\ l <= Len(Rec)
              /\ l' = l + 1
              /\ IF Skipping
                 THEN UNCHANGED <<vars, bad>>
-                ELSE /\ (TReset \/ TCall \/ TRet \/ TOp \/ TPanic \/ TFinal)
-                     /\ bad' = BadOf'
+                ELSE /\ (((IsNopCall \/ IsNopRet) /\ Stutter) \/ TReset \/ TCall \/ TRet \/ TOp \/ TPanic \/ TFinal)
+                     /\ bad' = Worst(EvBad, BadOf')
                      /\ NoteBad(bad')
 
 TraceSpec == TraceInit /\ [][TraceNext]_tvars
